@@ -41,7 +41,7 @@ def _mk(su: Setup, layout: tuple[int, ...], pool_to: int | None, behaviours: tup
     per_prop={p: {"quick": [{"ct": ct, "N": 1, "P": 1, "_pre": f"lay == {lay} and beh <= 1 and pto == 0 and {mode}"}
                             for ct in ("h11", "h2") for lay in (3,)
                             for mode in ("cancel == 0 and d0 <= 30", "cancel > 0 and d0 == 0 and c0 == 0")]}
-              for p in ("C01", "C04", "C08", "C15")},
+              for p in ("C01", "C04", "C05", "C06", "C08", "C15")},
     thorough=[{"ct": ct, "N": n, "P": 2, "_pre": f"lay == {lay} and cancel == 0 and d0 % 4 == {r}"}
               for ct in ("h11", "h2", "h1-on-h2-pool", "tunnel") for n in (1, 2) for lay in range(6) for r in range(4)]
     + [{"ct": ct, "N": n, "P": 1, "_pre": f"lay == {lay} and cancel > 0"}
@@ -53,7 +53,7 @@ def _mk(su: Setup, layout: tuple[int, ...], pool_to: int | None, behaviours: tup
     bounds="<= 3 callers, <= 2 origins, max_connections N in {1,2}, P <= 1 (quick) / 2 (thorough) deviations among the first 40 scheduling decisions, HTTP/1.1, HTTP/2, HTTP/1.1 server behind an http2-enabled pool (the 'turned out to be HTTP/1.1' re-queue), tunnel proxy",
     outside="more callers/deviations; unbounded arrival streams (fairness)",
     stubs=("verif.vrt scheduler: FIFO ready queue + bounded deviations", "servers answer every request"),
-    also=("C01", "C04", "C08", "C15"),
+    also=("C01", "C04", "C05", "C06", "C08", "C15"),
 )
 def pool_conc(lay: int, d0: int, c0: int, d1: int, c1: int, beh: int, pto: int, cancel: int) -> None:
     """
@@ -110,6 +110,15 @@ def _pool_conc(layout: tuple[int, ...], devs: list[tuple[int, int]], behaviours:
     if cancel_at and rt.task("c0").cancel_deliveries:
         P.cover("cancelled")
     P.check(len(su.pool._requests) == 0 or bool(rt.deadlocked), "queue-empty-at-quiescence", f"{sig}:queue-not-empty", prop="C07")
+    # ------------------------------------------- C05 / C06 at quiescence (no caller left)
+    if not rt.deadlocked:
+        stuck = scen.stuck_connections(su.pool)
+        P.check(not stuck, "no-stuck-connection-at-quiescence",
+                lambda: f"{sig}:stuck:{_states(su)}:{su.where()}", prop="C05")
+        open_n = len(su.net.open_socks())
+        live = len([c for c in su.pool.connections if not c.is_closed()])
+        P.check(open_n <= live, "open-streams-owned-by-pooled-connections",
+                lambda: f"{sig}:leak:open={open_n}:live={live}:{su.where()}", prop="C06")
     # ---------------------------------------------------------- C01: no cross-talk
     token_oracle(callers, "C01", sig)
     desync_oracle(su, "C01", sig)
@@ -117,6 +126,11 @@ def _pool_conc(layout: tuple[int, ...], devs: list[tuple[int, int]], behaviours:
         P.check(not getattr(o, "violations", None), "wire-bytes-legal", lambda: f"{sig}:illegal-wire:{o.violations}", prop="C01")
     # ------------------------------------------------------------ C04: stream count
     counter.check()
+    # ---------------------------------------------------------- C06: after pool close
+    if not rt.deadlocked:
+        oc = scen.acall(su.pool.aclose())
+        P.check(oc.ok and not su.net.open_socks(), "no-stream-open-after-pool-close",
+                lambda: f"{sig}:leak-after-close:{len(su.net.open_socks())}:{su.where()}", prop="C06")
     # -------------------------------------------- C08(a,d): discipline + no internal error
     d = su.pool._discipline
     P.check(not d.violations, "pool-state-mutated-only-by-the-pool-under-its-lock",
